@@ -403,23 +403,28 @@ def judge(prog, obs):
     return None
 
 
-KNOWN_KEYS = {
-    # (stage, features) -> key of a listed family; anything else gets a generic key
-    ("build-raises-ValidationError", ("conv-in-body-below-import",)): "adapt:body-own-opsets:converted-node-in-body",
-    ("node-invalid-at-import", ("conv-in-body-below-import",)): "adapt:body-own-opsets:converted-node-in-body",
-    ("build-raises-ValidationError", ("inline-in-body-below-import",)): "adapt:body-own-opsets:inline-in-body",
-    ("node-invalid-at-import", ("inline-in-body-below-import",)): "adapt:body-own-opsets:inline-in-body",
-    ("build-raises-ValidationError", ("conv-unknown-rank",)): "adapt:unknown-rank:build-fails",
-    ("build-raises-ValidationError", ("two-fresh-values",)): "adapt:duplicate-fresh-name:>=2-converted-nodes",
-    ("runtime-rejects", ("two-fresh-values",)): "adapt:duplicate-fresh-name:>=2-converted-nodes",
-    ("build-raises-ValidationError", ("inline-below-14-target-14",)): "adapt-inline:source-below-14:not-converted",
-    ("node-invalid-at-import", ("inline-below-14-target-14",)): "adapt-inline:source-below-14:not-converted",
-}
+INFORMATIONAL = {"inline-converted"}
 
 
-def classify(stage, prog):
-    feats = tuple(L.features(prog))
-    return KNOWN_KEYS.get((stage, feats), f"{stage}:{'+'.join(feats) or 'plain'}")
+def classify(stage, prog, msg=""):
+    """Key of a (shrunk) witness: failure stage + the structural features that can cause it.
+    The listed families get their own keys; everything else `<stage>:<features>`."""
+    feats = set(L.features(prog)) - INFORMATIONAL
+    bad_attr = stage in ("build-raises-ValidationError", "node-invalid-at-import", "checker-rejects") and (
+        "Field 'shape'" not in msg)
+    dup = "multiple times" in msg or "single static assignment" in msg
+    if dup and "two-fresh-values" in feats:
+        return "adapt:duplicate-fresh-name:>=2-converted-nodes"
+    feats.discard("two-fresh-values")
+    if stage == "build-raises-ValidationError" and "Field 'shape'" in msg and feats == {"conv-unknown-rank"}:
+        return "adapt:unknown-rank:build-fails"
+    if bad_attr and feats == {"conv-in-body-below-import"}:
+        return "adapt:body-own-opsets:converted-node-in-body"
+    if bad_attr and feats == {"inline-in-body-below-import"}:
+        return "adapt:body-own-opsets:inline-in-body"
+    if bad_attr and feats == {"inline-below-14-target-14"}:
+        return "adapt-inline:source-below-14:not-converted"
+    return f"{stage}:{'+'.join(sorted(feats)) or 'plain'}"
 
 
 def fails(prog):
@@ -428,7 +433,8 @@ def fails(prog):
 
 
 def shrink(prog, stage, budget=120):
-    """Greedy structural shrinking that keeps the failure stage."""
+    """Greedy structural shrinking that keeps the failure stage: single output, then repeatedly remove
+    one statement anywhere (its users see its first argument, or the input x), bodies may become empty."""
     cur = copy.deepcopy(prog)
 
     def still(p):
@@ -442,74 +448,90 @@ def shrink(prog, stage, budget=120):
             return False
         return v is not None and v[0] == stage
 
-    def used_ids(p):
-        u = set(p["outs"])
-        for st, *_ in L.walk(p["nodes"]):
-            u |= set(st.get("args", []))
-            for b in L.sub_blocks(st):
-                u.add(b["out"])
-        return u
+    def all_ids(nodes, acc):
+        for st in nodes:
+            acc.append(st["id"])
+            for blk in L.sub_blocks(st):
+                all_ids(blk["nodes"], acc)
+        return acc
 
-    # 1. single output
+    def remove(p, sid):
+        """A copy of p without statement sid."""
+        p = copy.deepcopy(p)
+        repl = [None]
+
+        def rm(nodes):
+            for i, st in enumerate(nodes):
+                if st["id"] == sid:
+                    args = [a for a in st.get("args", []) if a != sid]
+                    repl[0] = args[0] if args and st["op"] != "func" else "x"
+                    if st["op"] == "func":
+                        repl[0] = args[0] if args else "x"
+                    del nodes[i]
+                    return True
+                for blk in L.sub_blocks(st):
+                    if rm(blk["nodes"]):
+                        return True
+            return False
+
+        if not rm(p["nodes"]):
+            return None
+
+        def sub(nodes):
+            for st in nodes:
+                if "args" in st:
+                    st["args"] = [repl[0] if a == sid else a for a in st["args"]]
+                for blk in L.sub_blocks(st):
+                    if blk["out"] == sid:
+                        blk["out"] = repl[0]
+                    sub(blk["nodes"])
+
+        sub(p["nodes"])
+        p["outs"] = [repl[0] if o == sid else o for o in p["outs"]]
+        # a function parameter is only visible inside its body; a body value only inside the body:
+        # keep the candidate only if every reference is still defined where it is used
+        return p if well_scoped(p) else None
+
+    def well_scoped(p):
+        def chk(nodes, vis):
+            vis = set(vis)
+            for st in nodes:
+                if any(a not in vis for a in st.get("args", [])):
+                    return False
+                if st["op"] == "if":
+                    for blk in (st["then"], st["else"]):
+                        inner = chk(blk["nodes"], vis)
+                        if inner is False or blk["out"] not in inner:
+                            return False
+                if st["op"] == "func":
+                    inner = chk(st["body"]["nodes"], set(st["params"]))
+                    if inner is False or st["body"]["out"] not in inner:
+                        return False
+                vis.add(st["id"])
+            return vis
+
+        vis = chk(p["nodes"], {"x", "y"})
+        return vis is not False and all(o in vis for o in p["outs"]) and bool(p["nodes"])
+
     if len(cur["outs"]) > 1:
         for o in list(cur["outs"]):
-            cand = dict(cur, outs=[o])
-            if still(cand):
+            cand = L.prune(dict(cur, outs=[o]))
+            if cand["nodes"] and still(cand):
                 cur = cand
                 break
     changed = True
     while changed and budget > 0:
         changed = False
-
-        def blocks(p):
-            yield p["nodes"], None
-            for st, *_ in L.walk(p["nodes"]):
-                for b in L.sub_blocks(st):
-                    yield b["nodes"], b
-
-        # 2. bypass statements (uses of the statement see its first argument instead)
-        for nodes, owner in list(blocks(cur)):
-            for i in range(len(nodes) - 1, -1, -1):
-                st = nodes[i]
-                cand = copy.deepcopy(cur)
-                # locate the same list in the copy
-                for cn, co in blocks(cand):
-                    if [s["id"] for s in cn] == [s["id"] for s in nodes]:
-                        tgt_nodes, tgt_owner = cn, co
-                        break
-                else:
-                    continue
-                repl = (st.get("args") or [None])[0]
-                if st["op"] == "if":
-                    repl = None
-                if repl is None:
-                    if st["id"] in used_ids(cur):
-                        # replace an If by a plain input
-                        repl = "x"
-                    else:
-                        repl = "x"
-                del tgt_nodes[i]
-
-                def sub(p_nodes):
-                    for s in p_nodes:
-                        if "args" in s:
-                            s["args"] = [repl if a == st["id"] else a for a in s["args"]]
-                        for b in L.sub_blocks(s):
-                            if b["out"] == st["id"]:
-                                b["out"] = repl
-                            sub(b["nodes"])
-
-                sub(cand["nodes"])
-                cand["outs"] = [repl if o == st["id"] else o for o in cand["outs"]]
-                if tgt_owner is not None and not tgt_nodes:
-                    continue
-                if any(o in ("x", "y") for o in cand["outs"]) and not cand["nodes"]:
-                    continue
-                if still(cand):
-                    cur = cand
-                    changed = True
-                    break
-            if changed:
+        for sid in reversed(all_ids(cur["nodes"], [])):
+            cand = remove(cur, sid)
+            if cand is None:
+                continue
+            cand = L.prune(cand)
+            if not cand["nodes"] or any(o in ("x", "y") for o in cand["outs"]):
+                continue
+            if still(cand):
+                cur = cand
+                changed = True
                 break
     return cur
 
@@ -715,7 +737,7 @@ def run(ck: core.Check):
             stats["stages"][stage] = stats["stages"].get(stage, 0) + 1
             small = prog if fam.startswith("witness") else shrink(prog, stage, budget=ck.pick(60, 150))
             v2 = fails(small) or verdict
-            key = classify(v2[0], small)
+            key = classify(v2[0], small, v2[1])
             ck.failure(key, f"{v2[0]}: {v2[1]}", {"prog": small, "stage": v2[0], "features": L.features(small),
                                                  "family": fam, "original_size": L.prog_size(prog)})
 
@@ -762,5 +784,5 @@ def replay(ck: core.Check, doc) -> bool:
         print("build succeeded; imports, node validity, checker, runtime and results all as required")
         return False
     print(f"{v[0]}: {v[1]}")
-    print("key:", classify(v[0], case["prog"]))
+    print("key:", classify(v[0], case["prog"], v[1]))
     return True
